@@ -190,6 +190,8 @@ def run_canary(name, scratch, support_dir, tier, seed, base_ur):
     except Undecided:
         return None, 0
     if ur.fatal: return None, 0
+    # the canary run must itself be a proper verification run: any rustc / tool error makes it meaningless
+    if any(classify_message(d.get('message', '')) == 'other' for d in ur.errors): return None, 0
     failed = set()
     for d in ur.errors:
         for sp in d.get('spans', []):
